@@ -15,7 +15,7 @@ func init() {
 		ID:    "C04",
 		Level: "exploration",
 		Rule: "case i enumerates (stratum, client form, target protocol, code, message, details, position) from small domains: stratum A = RPC errors with codes 1..16 and " +
-			"out-of-range codes (17, 18, 99, 2^31-1, 2^32-1) x message pool (ASCII, %, CR/LF, quotes, 2/3/4-byte UTF-8, 4 KiB) x 0..3 typed details x position " +
+			"out-of-range codes (17, 18, 99, 2^31-1, 2^32-1) x message pool (ASCII, %, CR/LF, quotes, 2/3/4-byte UTF-8, 4 KiB) x 0..3 typed details (grpc-status-details-bin padded or unpadded) x position " +
 			"(trailers-only / after 0,1,3 messages); stratum B = bare HTTP statuses (all of 300..599 in thorough) x body kinds x backends; stratum C = transcoder rejections. " +
 			"oracle: client-decoded (code, message, details) equals the backend's, HTTP status equals the published table, out-of-range codes are relayed or become a server error, never a panic. " +
 			"non-trivial = client and backend protocols differ; distinct by (form, target, code, message class, details, position)",
